@@ -19,7 +19,7 @@ def write_corpus(c, n):
     for cs in cases:
         e = cs["e"]
         # BitVec belongs to the bit-vec sub-lattice only (fp has its own sub-corpus for it)
-        if G.has(e, {"BitVec", "Lsb0", "Msb0"}) or G.key(e) in seen: continue
+        if G.has(e, {"BitVec", "Lsb0", "Msb0", "Local"}) or G.key(e) in seen: continue      # (block-local user types cannot be named in a file-level corpus)
         seen.add(G.key(e)); exprs.append(e)
     step = max(1, len(exprs) // n)
     exprs = exprs[::step][:n]
